@@ -109,8 +109,15 @@ def c14_2(ctx, r):
             # unconditional inside the loop body: guards of the call mention nothing but loop membership
             for n in ctx.nodes_of(fn, s.node):
                 forms = guard_forms(ctx, fn, n)
+                forms = {(f, p) for f, p in forms if "cancel_job" not in f}
                 r.check(not forms, "SCANCEL is unconditional inside the loop", key_of(fn, "SCANCEL conditional"), s.loc,
                         f"the scheduler cancel is skipped under {sorted(f for f, _ in forms)}: an active batch may keep running", guards=sorted(f for f, _ in forms))
+            # the loop must not change the list it walks
+            for s3 in ctx.cg.sites_in(fn):
+                if any(l is lp for l in ctx.enclosing(fn, s3.node, (ast.For,))) and "HPC_IDS_WRITE" in ctx.site_may(s3):
+                    r.bad(key_of(fn, f"cancel loop mutates hpc_job_ids via {ctx.src(s3.node.func)}"), s3.loc,
+                          f"`{ctx.src(s3.node)[:60]}` (re)writes JobStatus.hpc_job_ids while the cancel loop iterates that same list: every second active batch is skipped and never canceled",
+                          "every batch that was active is asked to be canceled")
         else:
             r.bad(key_of(fn, "SCANCEL not in loop"), s.loc, "scheduler cancel is not issued per persisted active id")
     # mark follows on all normal paths from entry
